@@ -31,6 +31,18 @@ CHECKS["C02"] = dict(
          "Isolation between connections (nothing executed after a protocol error) is exercised through the serve engine under C03.",
 )
 
+CHECKS["C01"] = dict(
+    category="proof", design_ref="DESIGN.md §6 C01", engine="exec",
+    technique="Lean 4 executable keyspace model with theorems on its index/overflow arithmetic + differential correspondence (replies and keyspace dumps) on generated command programs",
+    text="The string/key executors are modelled as total Lean functions on an association-list keyspace with deadlines (Exec/StringKeys.lean); "
+         "kernel-checked theorems cover GETRANGE/SETRANGE index arithmetic for all indexes (never out of range), exact-or-rejected INCR arithmetic "
+         "and the model-level laws in Props. The model is tied to the Go executors by running generated programs (all SET option combinations, "
+         "numeric extremes, binary/case-variant keys, arity damage) through server.Manager.ExecCommand and comparing every reply and the dump of "
+         "the touched keys with the model.",
+    note="Trusted: Lean kernel (propext, Classical.choice, Quot.sound), harness/driver/dump hook, strconv mirrored by the model's integer parser. "
+         "Error replies compared by class; INCRBYFLOAT arithmetic taken from the implementation (checker mode).",
+)
+
 NOT_YET = "check not built yet in this round; see DESIGN.md §8"
 NOT_APPLICABLE = {}
 
